@@ -34,6 +34,10 @@ CHECKS = {
          "Every region of 1..4 (quick) / 1..5 (thorough) segments with lengths 1..3 and every per-segment orientation, listed and complemented (plus nested shapes) x all five modifier forms with both offsets in [-len-3,len+3]: the atoms covered by Resize equal the slice [lo,hi) of the spliced axis (outward extension of the first/last segment outside), zero-length results sit on the right boundary, Locate bytes agree, and the same law holds for the complemented region. Every modifier value prints and re-parses to itself; every modifier token string of <=6 tokens is a parse/print fixed point; every locator string X, @M, X@M assembled from modifiers, points, ranges, complement ranges and selectors is compared with the reference semantics on 6 feature tables.",
          "Segments of a region are disjoint with gap 1; spliced-axis model written independently of region.go; selector reference from C19.",
          "DESIGN.md §5 C08"),
+ "C16": (MC, "exhaustive enumeration of every sequence length 0..N and every single-byte mutation of short blocks through NewOrigin/Origin/scanner (LF and CRLF) and, by overlay export, the two internal ORIGIN reader paths",
+         "Every length 0..1300 (quick) / 0..12000 (thorough) with residues cycling through all printable bytes: the block equals an independently written layout, Len() before and after decoding equals n, decoding restores the residues, re-formatting is stable, the closed-form size arithmetic agrees with the block, and a record carrying the block is read with identical residues through the fast (LF) and slow (CRLF) reader paths. For every length <=70 (quick) / <=130 (thorough) every offset of the block x 9 replacement bytes: both line-end variants agree, and validateOrigin and slowGenBankOriginParser (exported into the checker by a build overlay, nothing committed to /repo) agree in verdict and output.",
+         "If the unexported names disappear the overlay build falls back and the internal sub-check is reported as skipped in the evidence; seqio parsing is serialised (pars combinators are not goroutine-safe).",
+         "DESIGN.md §5 C16"),
  "C18": (MC, "exhaustive enumeration of all byte values and all small sequences/queries through Complement/Transcribe/Match/Search against IUPAC base-set tables",
          "All 256 bytes through Complement and Transcribe; every printable query byte x every printable sequence byte through Match and Search (the complete match table incl. literals and regexp metacharacters); all sequences of length <=5 (quick) / <=7 (thorough) x all queries of length <=3 over an 8-letter alphabet: Search equals the set of all overlapping case-insensitive occurrences, Match equals the leftmost non-overlapping scan of the base-set containment predicate.",
          "IUPAC table written out in the checker; Match row K is test-pinned and listed as a known finding with an exact deviation.",
